@@ -73,4 +73,47 @@ Proof.
   rewrite (ping_decode (n_prefix nd) 7 cid ident Hp Hc Hi). reflexivity.
 Qed.
 
+(* the far end of a linked end-to-end circuit is the ORIGINATOR of its own circuit (no exit socket there): it answers
+   a ping as well - pong under the same id and identifier, end-to-end layer first, then all its hop layers *)
+Lemma ping_answered_e2e_l (nd : node) src cid ci ks hk h0 htl ident early rnd ns :
+  length (n_prefix nd) = 22%nat -> cid_ok cid -> 0 <= ident < 65536 ->
+  existsb (Z.eqb 6) (n_handlers nd) = true ->
+  assoc cid (n_circuits nd) = Some ci -> c_hs ci = Some hk -> c_hops ci = h0 :: htl ->
+  map h_keys (c_hops ci) = map Some ks ->
+  let e := c_early ci <? n_max_early nd in
+  community_on_cell_packet enc nd src (cell_to_bin (n_prefix nd) (mkCell cid (6 :: be_encode 2 ident) false early)) rnd ns
+  = Ok (set_circuits nd (upd cid (if e then bump key ci else ci) (n_circuits nd)),
+        [Send src (cell_to_bin (n_prefix nd)
+                     (mkCell cid (enc_layers enc FORWARD ks (drawn (shift ns) (length ks))
+                                    (enc hk (hs_out_dir (c_ctype ci)) (ns O) (7 :: be_encode 2 ident))) false e))]).
+Proof.
+  intros Hp Hc Hi Hh Hci Hhs Hne Hk e.
+  rewrite (community_cell key nonce enc nd src cid 6 (be_encode 2 ident) early rnd ns Hp Hc).
+  rewrite (pfc_dispatch key nonce enc nd src cid 6 (be_encode 4 cid ++ be_encode 2 ident) rnd ns Hp Hh).
+  cbn [Z.eqb Pos.eqb]. unfold on_ping.
+  rewrite (ping_decode (n_prefix nd) 6 cid ident Hp Hc Hi). cbn [bind].
+  unfold known_cid, has. rewrite Hci. cbn [orb negb].
+  rewrite fmt_ping_eq.
+  rewrite (send_cell_eq key nonce enc nd src cid 7 tail_ping [VInt ident] (be_encode 2 ident) ns Hc (ident_pack ident Hi)) by lia.
+  change (NO_CRYPTO 7) with false.
+  pose proof (origin_send_hs key nonce enc nd src cid ci ks hk h0 htl 7 (be_encode 2 ident) false ns Hci Hhs Hne Hk) as S.
+  cbv zeta in S. change ((7 =? 4) || (c_early ci <? n_max_early nd)) with e in S. rewrite S. reflexivity.
+Qed.
+
+Lemma ping_answered_e2e_ex_l (nd : node) src cid ci ks hk h0 htl ident early rnd ns :
+  length (n_prefix nd) = 22%nat -> cid_ok cid -> 0 <= ident < 65536 ->
+  existsb (Z.eqb 6) (n_handlers nd) = true ->
+  assoc cid (n_circuits nd) = Some ci -> c_hs ci = Some hk -> c_hops ci = h0 :: htl ->
+  map h_keys (c_hops ci) = map Some ks ->
+  exists nd',
+  community_on_cell_packet enc nd src (cell_to_bin (n_prefix nd) (mkCell cid (6 :: be_encode 2 ident) false early)) rnd ns
+  = Ok (nd', [Send src (cell_to_bin (n_prefix nd)
+                     (mkCell cid (enc_layers enc FORWARD ks (drawn (shift ns) (length ks))
+                                    (enc hk (hs_out_dir (c_ctype ci)) (ns O) (7 :: be_encode 2 ident))) false
+                             (c_early ci <? n_max_early nd)))]).
+Proof.
+  intros Hp Hc Hi Hh Hci Hhs Hne Hk. eexists.
+  apply (ping_answered_e2e_l nd src cid ci ks hk h0 htl ident early rnd ns Hp Hc Hi Hh Hci Hhs Hne Hk).
+Qed.
+
 End Ping.
